@@ -177,7 +177,6 @@ pub fn profile(prop: &str) -> Option<Profile> {
             p.world_ok = has_sim_or_heap;
             p.focus = [focus_put(), focus_take(false), focus_drain_splice(false)].concat();
             p.focus.push(f(Op::CloneVec, 0, 0, 0, 0));
-            p.focus.push(f(Op::CloneVec, 0, 0, 0, 0));
             p.focus.push(f(Op::Clear, 0, VIA_ERASED, 0, 0));
             p.focus.push(f(Op::DropVec, 0, 0, 0, 0));
             for kind in 0..4u8 {
